@@ -76,12 +76,14 @@ func runC13(e *Env) {
 	e.R.Rule = "paths enumerated exhaustively over the segment alphabet {'', '.', '..', 'a', 'b', '..a', 'a..'} " +
 		"(abs/rel, with/without trailing '/') plus seeded random Unicode/byte segments; a case is " +
 		"(operation, layout, path); non-trivial when the path has >= 2 segments or is '', '.' or '..'; distinct by that triple; " +
+		"mount layouts include mount points registered WITH a trailing separator ('/a/' below '/', '/a/b/' below '/a', alone, beside others); " +
 		"two-path operations (every method of *VirtualOS with two path arguments, found by reflection, and the builtins os.rename/os.symlink/cp) " +
 		"over nested, sibling and seeded mount layouts x working directories at and inside every mount x ordered PAIRS of a structured path pool " +
 		"(at/inside/above/beside every mount point, absolute and relative to the working directory, clean and unclean): a case is " +
 		"(layout, cwd, operation, path, path2), all non-trivial; " +
 		"SESSIONS on one rooted local filesystem over a real tree (absolute base and relative spellings of it): 12-16 calls of all 15 methods whose " +
 		"arguments are host paths the filesystem handed out earlier in the session (MkdirTemp results, WalkDir callback paths, File.Name()) with a suffix " +
+		"(MkdirTemp with a name PATTERN from a pool: plain ones with/without '*', and ones with path separators and '..' segments) " +
 		"(mostly as many '..' as lead to the directory above the base, then a name that exists there), literals built from the host base directory, or short literals: " +
 		"a quarter of the calls through a VirtualOS that mounts the filesystem at '/'; " +
 		"a case is (base spelling, where the referenced handed-out paths came from, the last three calls, the call and its route), all non-trivial; " +
@@ -253,6 +255,18 @@ var c13Layouts = [][]string{
 	{"/", "/a"},
 }
 
+// mount points registered WITH a trailing separator ("/a/": what `risor --virtual-os --mount
+// dir:/a/` produces — cmd/risor uses the destination string verbatim as key and Target), below
+// an enclosing mount, beside other mounts, and on their own (theorems
+// trailing_sep_mount_serves_below, findMount_serves_every_match)
+var c13LayoutsSep = [][]string{
+	{"/", "/a/"},
+	{"/a", "/a/b/"},
+	{"/a/"},
+	{"/", "/b/", "/a/b/"},
+	{"/a/", "/ab/", "/a/b"},
+}
+
 type vosOp struct {
 	name string
 	two  bool
@@ -280,7 +294,8 @@ var c13VosOps = []vosOp{
 func c13Mounts(e *Env, paths []string) {
 	rng := e.Rng.Fork()
 	cwds := []string{"/", "/a", "/a/b", "/b/"}
-	for li, layout := range c13Layouts {
+	allLayouts := append(append([][]string{}, c13Layouts...), c13LayoutsSep...)
+	for li, layout := range allLayouts {
 		var log []recEntry
 		mounts := map[string]*ros.Mount{}
 		for _, t := range layout {
@@ -291,6 +306,7 @@ func c13Mounts(e *Env, paths []string) {
 			hexMounts[i] = Hex(t)
 		}
 		msField := strings.Join(hexMounts, ",")
+		sepLayout := li >= len(c13Layouts)
 		for _, cwd := range cwds {
 			vos := ros.NewVirtualOS(context.Background(), ros.WithMounts(mounts), ros.WithCwd(cwd))
 			// sample the path list for all but the first two layouts in the quick tier
@@ -359,6 +375,26 @@ func c13Mounts(e *Env, paths []string) {
 				if len(log) > 0 {
 					goMount = "some " + Hex(log[0].mount)
 				}
+				if sepLayout {
+					below := "not under a mount point with a trailing separator"
+					for _, t := range layout {
+						if len(t) > 1 && strings.HasSuffix(t, "/") && strings.HasPrefix(c13Key(cwd, p), t) && c13Key(cwd, p) != t {
+							below = "strictly below a mount point with a trailing separator"
+						}
+					}
+					e.R.H("mount_trailing_sep", below)
+				}
+				if sepLayout && goImpl == f[0] && strings.HasPrefix(f[1], "some ") {
+					// the mount point itself, spelled WITHOUT the separator it was registered with
+					// ("/a" for the mount "/a/"): as a string it is not under "/a/", and both the code
+					// and the model hand it to the enclosing mount (or refuse it).  The property's
+					// text (paths UNDER a mount point) does not decide this spelling; it is counted,
+					// compared with the model above, and not judged.
+					if sm := UnHex(strings.TrimPrefix(f[1], "some ")); len(sm) > 1 && strings.HasSuffix(sm, "/") && c13Key(cwd, p) == strings.TrimSuffix(sm, "/") {
+						e.R.H("mount_trailing_sep", "the mount point spelled without its separator (not judged)")
+						continue
+					}
+				}
 				if goMount != f[1] {
 					finding := ""
 					if f[2] == "true" && goImpl == f[0] {
@@ -369,6 +405,19 @@ func c13Mounts(e *Env, paths []string) {
 			}
 		}
 	}
+}
+
+// c13Key is the string VirtualOS.findMount matches against the mount table (C13.mountKeyPath).
+func c13Key(cwd, p string) string {
+	ends := strings.HasSuffix(p, "/")
+	if !filepath.IsAbs(p) {
+		p = filepath.Join(cwd, p)
+	}
+	p = filepath.Clean(p)
+	if ends && p != "/" {
+		p += "/"
+	}
+	return p
 }
 
 // 3b. sessions on ONE VirtualOS: lookups of a small pool of (mostly relative) paths
